@@ -29,7 +29,7 @@ struct Sig {
 // choices for the builder come from the caller (pick(n) in [0,n), byte source)
 struct Chooser { Pick pick; std::function<uint8_t()> byte; };
 struct BuildOpts { int minChains = 1, maxChains = 5; bool allowMeta = true, allowLegacy = true; int wantCal = -1, wantPub = -1, wantAuth = -1, wantRfc = -1; /* -1 = generated */
-                   bool fixedDoc = false; Bytes doc; bool fixedTime = false; uint64_t t = 0; bool fixedPubTime = false; uint64_t p = 0; int firstCorr = -1; int level0 = 0; };
+                   bool fixedDoc = false; Bytes doc; bool fixedTime = false; uint64_t t = 0; bool fixedPubTime = false; uint64_t p = 0; int firstCorr = -1; int level0 = 0; uint64_t calSalt = 0; /* non-zero: calendar siblings from the coherent simulated calendar */ };
 Sig buildConsistent(const Chooser &c, const BuildOpts &o);
 Bytes metaContent(const std::string &clientId, const std::string &machineId, bool hasSeq, uint64_t seq, bool hasTime, uint64_t tm, int padMode = 1); // padMode 0 = none
 std::vector<CalLink> calLinksFor(const Chooser &c, uint64_t t, uint64_t p, int algBias);
